@@ -124,8 +124,16 @@ class Calls(object):
             elif isinstance(a.t, TNone) or isinstance(b.t, TNone) or isinstance(a.t, TOpt) or isinstance(b.t, TOpt):
                 t = a.t if isinstance(a.t, TOpt) else (b.t if isinstance(b.t, TOpt) else TOpt(b.t if isinstance(a.t, TNone) else a.t))
                 a, b = ev.coerce(a, t), ev.coerce(b, t)
-            elif isinstance(a.t, TVal) or isinstance(b.t, TVal):
-                a, b = ev.coerce(a, TVal()), ev.coerce(b, TVal())
+            elif isinstance(a.t, TSeq) and isinstance(b.t, TSeq) and ((a.meta or {}).get("empty_literal") or (b.meta or {}).get("empty_literal")):
+                if (a.meta or {}).get("empty_literal"):
+                    a = ev.coerce(a, b.t)
+                else:
+                    b = ev.coerce(b, a.t)
+            elif isinstance(a.t, TRef) and isinstance(b.t, TRef):
+                if a.t.cls in (None, "?"):
+                    a = SV(a.e, b.t)
+                else:
+                    b = SV(b.e, a.t)
         return SV(z3.If(ev.truthy(c), a.e, b.e), a.t)
 
     def _quant(self, ev, node, st, forall):
@@ -322,6 +330,20 @@ class Calls(object):
         kf = self.cx.func("dict_keyat_%s" % nm, t.sort(self.cx), I, t.k.sort(self.cx))
         return SV(kf(d.e, j.e), t.k)
 
+    def spec_butlast(self, ev, node, st):
+        """butlast(s): s without its last element (what s.pop() leaves)"""
+        (a,) = self._args(ev, node, st)
+        return SV(a.t.ops(self.cx)["butlast"](a.e), a.t)
+
+    def spec_unpack(self, ev, node, st):
+        """unpack(o, i, 'T'): the i-th item of the opaque record o when it is unpacked as a tuple (what `a, b = o` binds)"""
+        o = ev.ev(node.args[0], st)
+        i = node.args[1].value
+        t = self.fx.parse_type(node.args[2].value)
+        from .evalx import mangle
+        f = self.cx.func("unpack_%d_%s" % (i, mangle(t.name)), self.cx.Obj, t.sort(self.cx))
+        return SV(f(ev.coerce(o, TObj(), "unpack()").e), t)
+
     def spec_b2i(self, ev, node, st):
         (a,) = self._args(ev, node, st)
         return SV(z3.If(ev.truthy(a), 1, 0), TInt())
@@ -335,6 +357,13 @@ class Calls(object):
         if isinstance(a.t, TOpt):
             return SV(a.t.get(self.cx, a.e), a.t.inner)
         return a
+
+    def spec_opt(self, ev, node, st):
+        """opt(x): x as a value of type Opt[T] (the wrapping the code translation applies when a T flows into an Opt[T] slot)"""
+        (a,) = self._args(ev, node, st)
+        if isinstance(a.t, TOpt):
+            return a
+        return ev.coerce(a, TOpt(a.t), "opt()")
 
     def spec_nth(self, ev, node, st):
         s, i = self._args(ev, node, st)
@@ -651,6 +680,13 @@ class Calls(object):
             if not isinstance(a.t, TSeq):
                 raise Outside("join of %s" % a.t)
             return SV(self.fx.lib.str_join(recv.e, a), TStr())
+        if name in ("startswith", "endswith") and len(node.args) == 1 and isinstance(node.args[0], ast.Tuple):
+            # s.endswith((a, b, ...)) == s.endswith(a) or s.endswith(b) or ...
+            alts = []
+            for el in node.args[0].elts:
+                one = ast.copy_location(ast.Call(func=node.func, args=[el], keywords=[]), node)
+                alts.append(self.str_method(ev, recv, name, one, st).e)
+            return SV(z3.Or(*alts) if alts else z3.BoolVal(False), TBool())
         if name in STR_METHODS:
             argspec, rt = STR_METHODS[name]
             args = self._args(ev, node, st)
@@ -819,7 +855,11 @@ class Calls(object):
         inner_exc = ev.exc_out
         ev.exc_out = saved_exc
         if inner_exc and not ev.spec:
-            raise Outside("comprehension body may raise")
+            # the body is evaluated for an arbitrary element: each raising branch must be unreachable
+            for o_ in inner_exc:
+                if o_.kind != "raise":
+                    raise Outside("comprehension body with control flow")
+                self.fx.oblig("safe[%s]" % o_.exc, o_.st, z3.BoolVal(False), o_.where, "comprehension body raises no %s" % o_.exc)
         # free variables captured by the comprehension
         free = []
         for sub in [node.elt] + list(g.ifs):
